@@ -266,7 +266,10 @@ def to_text(p: Prog) -> str:
         tr, args = im.head
         self_s = ty_text(args[0], _ivar, lt)
         trp = "<%s>" % ", ".join(ty_text(x, _ivar, lt) for x in args[1:]) if len(args) > 1 else ""
-        wc = (" where " + ", ".join(atom_text(w, _ivar, lt) for w in im.wcs)) if im.wcs else ""
+        # where-clauses may only mention lifetimes of the header (or 'static): a lifetime parameter that occurs only
+        # in a where-clause is unconstrained (rustc E0207) and would make the subgoal non-ground
+        lt_wc = LtCtx(lt.fresh[0] if lt.fresh else "'static")
+        wc = (" where " + ", ".join(atom_text(w, _ivar, lt_wc) for w in im.wcs)) if im.wcs else ""
         ps = lt.fresh + [_ivar(k) for k in range(im.nvars)]
         params = "<%s>" % ", ".join(ps) if ps else ""
         out.append("%simpl%s %s%s%s for %s%s { }" % ("#[upstream] " if im.upstream else "", params, "" if im.positive else "!", tr, trp, self_s, wc))
